@@ -106,7 +106,8 @@ def model_check(ctx):
                      "wall_s": round(res.wall, 1)})
         ctx.note("P-MC %-14s %8d distinct states, depth %d, %.0fs" % (name, res.distinct, res.depth, res.wall))
     # liveness (no VIEW trickery needed: `last` is a function of the step) + action coverage
-    res = tlc.run(ctx, "FetcherMC", mc_cfg(["single", "cycle"], [6], [1], [1], html=(True,), extra="PROPERTY Terminates"),
+    live_variants, live_books = (["single", "cycle"], [6]) if quick else (["single", "cycle", "dead", "chain"], [6, 7])
+    res = tlc.run(ctx, "FetcherMC", mc_cfg(live_variants, live_books, [1], [1], html=(True,), extra="PROPERTY Terminates"),
                   name="mc_live", coverage=True, timeout=1500, heap="12g")
     if not res.ok:
         ctx.machinery("liveness/coverage run failed: %s %s\n%s" % (res.kind, res.name, res.out[-2000:]))
@@ -331,6 +332,10 @@ def run(ctx):
     t_val = time.time() - t2
     report(ctx, cases, results, verdicts, rejected, finals)
     consumed = len(verdicts)
+    leaks = sum(1 for r in results if r.get("leak"))
+    if leaks:
+        ctx.note("%d of %d fetches left entries in the class-level Fetcher.title_mapping behind (state shared between "
+                 "Fetcher instances; no effect on a single fetch)" % (leaks, len(results)))
     bycase = {c["id"]: c for c in cases}
     nt = sum(1 for r in results if not r["hang"] and nontrivial(bycase[r["id"]], r))
     ctx.note("P-TRACE %d fetches (%.0fs), %d traces consumed by TLC (%.0fs), %d rejected, %d events, %d requests"
